@@ -7,6 +7,40 @@ thread_local! {
     static LAST_PANIC: RefCell<Option<String>> = RefCell::new(None);
 }
 
+/// a logger that accepts every level and formats every record into nothing: `log` evaluates the arguments of its macros only
+/// when a logger takes the level, so code that runs only "while logging" (and its panics and costs) is otherwise never executed
+struct SinkLogger;
+pub static LOGGED_RECORDS: std::sync::atomic::AtomicU64 = std::sync::atomic::AtomicU64::new(0);
+pub static LOGGED_BYTES: std::sync::atomic::AtomicU64 = std::sync::atomic::AtomicU64::new(0);
+impl log::Log for SinkLogger {
+    fn enabled(&self, _: &log::Metadata) -> bool {
+        true
+    }
+    fn log(&self, record: &log::Record) {
+        use std::fmt::Write;
+        struct Count(u64);
+        impl Write for Count {
+            fn write_str(&mut self, s: &str) -> std::fmt::Result {
+                self.0 += s.len() as u64;
+                Ok(())
+            }
+        }
+        let mut c = Count(0);
+        let _ = write!(c, "{}", record.args());
+        LOGGED_RECORDS.fetch_add(1, std::sync::atomic::Ordering::Relaxed);
+        LOGGED_BYTES.fetch_add(c.0, std::sync::atomic::Ordering::Relaxed);
+    }
+    fn flush(&self) {}
+}
+static SINK: SinkLogger = SinkLogger;
+
+/// install the all-levels sink logger (idempotent)
+pub fn install_logger() {
+    if log::set_logger(&SINK).is_ok() {
+        log::set_max_level(log::LevelFilter::Trace);
+    }
+}
+
 /// install a quiet panic hook that records message + location per thread
 pub fn install_panic_hook() {
     panic::set_hook(Box::new(|info| {
